@@ -72,6 +72,16 @@ func execC16(seg []Ev) []Ev {
 				st = generic.NewGenericSymbolState()
 			}
 			sc = sio.NewStringScanner("")
+		case "addbytes": // a symbol given as bytes that are not well-formed UTF-8: its characters are those the host's conversion yields
+			bs := toList(in["bytes"])
+			b := make([]byte, len(bs))
+			for j, x := range bs {
+				b[j] = byte(toInt(x))
+			}
+			t := toInt(in["type"])
+			e["op"], e["bytes"], e["frombytes"] = "add", bs, true
+			e["sym"], e["type"] = cpsR([]rune(string(b))), t
+			st.Add(string(b), t)
 		case "add":
 			s := toRunes(in["sym"])
 			t := toInt(in["type"])
@@ -127,6 +137,17 @@ func c16run(g *Gen, gen string, syms [][]rune, types []int, inputs [][]rune) {
 }
 
 func genC16(g *Gen) {
+	// symbols handed over as bytes that are not well-formed UTF-8 (Latin-1 text, say): the symbol is the characters the host's
+	// conversion yields for those bytes - the ones a scanner delivers for the same bytes in an input
+	for _, bs := range [][]int{{0xa7}, {0x61, 0xff}, {0xe9, 0xe9}, {0xc3}, {0x3c, 0xa7, 0x3e}} {
+		for _, input := range []string{"\ufffd\u00a7a\ufffdb", "a\ufffd\ufffd\u00e9<\ufffd>", "\u00a7\u00e9\u00c3<\u00a7>"} {
+			seg := []Ev{{"op": "new"}, {"op": "addbytes", "bytes": toAnyList2(bs), "type": 105}, {"op": "add", "sym": cps("<="), "type": 106}, {"op": "scan", "input": cps(input)}}
+			for i := 0; i <= len([]rune(input)); i++ {
+				seg = append(seg, Ev{"op": "next"})
+			}
+			g.Run("symbols given as bytes that are not well-formed UTF-8", seg)
+		}
+	}
 	// universe: strings of length 1..3 over {a,b}
 	var uni [][]rune
 	allStrings([]rune{'a', 'b'}, 3, func(s []rune) {
@@ -455,4 +476,12 @@ func genC16(g *Gen) {
 		}
 		c16run(g, "random symbols over a wider alphabet", set, types, ins)
 	}
+}
+
+func toAnyList2(xs []int) []any {
+	out := make([]any, len(xs))
+	for i, x := range xs {
+		out[i] = x
+	}
+	return out
 }
